@@ -191,7 +191,7 @@ Qed.
 (* ---- vectors ---- *)
 
 Example G_on_curve : on_curve secp_G = true.
-Proof. vm_compute. reflexivity. Qed.
+Proof. vm_check. Qed.
 
 Example mul_1 : pt_mul 1 secp_G = secp_G.
 Proof. reflexivity. Qed.
@@ -199,37 +199,45 @@ Proof. reflexivity. Qed.
 Example mul_2 : pt_mul 2 secp_G =
   Some (0xC6047F9441ED7D6D3045406E95C07CD85C778E4B8CEF3CA7ABAC09B95C709EE5,
         0x1AE168FEA63DC339A3C58419466CEAEEF7F632653266D0E1236431A950CFE52A).
-Proof. vm_compute. reflexivity. Qed.
+Proof. vm_check. Qed.
 
 Example mul_3 : pt_mul 3 secp_G =
   Some (0xF9308A019258C31049344F85F89D5229B531C845836F99B08601F113BCE036F9,
         0x388F7B0F632DE8140FE337E62A37F3566500A99934C2231B6CB9FD7584B8E672).
-Proof. vm_compute. reflexivity. Qed.
+Proof. vm_check. Qed.
 
 Example inv_agree : inv_mod 0x1234567 secp_p = inv_fermat 0x1234567 secp_p.
-Proof. vm_compute. reflexivity. Qed.
+Proof. vm_check. Qed.
 
 Example lift_G : lift_x secp_Gx = Some (secp_Gx, secp_Gy).
-Proof. vm_compute. reflexivity. Qed.
+Proof. vm_check. Qed.
 
 Example compress_G :
   compress secp_G = hexs "0279be667ef9dcbbac55a06295ce870b07029bfcdb2dce28d959f2815b16f81798".
-Proof. vm_compute. reflexivity. Qed.
+Proof. vm_check. Qed.
 
 Example decompress_G : decompress (compress secp_G) = secp_G.
-Proof. vm_compute. reflexivity. Qed.
+Proof. vm_check. Qed.
 
 Example decompress_negG : decompress (compress (pt_neg secp_G)) = pt_neg secp_G.
-Proof. vm_compute. reflexivity. Qed.
+Proof. vm_check. Qed.
 
 (* x = 0 is not on the curve; x >= p is refused *)
 Example decompress_zero : decompress (2 :: repeat 0 32) = None.
-Proof. vm_compute. reflexivity. Qed.
+Proof. vm_check. Qed.
 Example decompress_overflow : decompress (2 :: be_bytes 32 (secp_p + 1)) = None.
-Proof. vm_compute. reflexivity. Qed.
+Proof. vm_check. Qed.
 
-(* the group order: n*G is the point at infinity, (n-1)*G = -G  (about 30 s each in the VM) *)
-Example mul_n : pt_mul secp_n secp_G = None.
-Proof. vm_compute. reflexivity. Qed.
-Example mul_n_minus_1 : pt_mul (secp_n - 1) secp_G = pt_neg secp_G.
-Proof. vm_compute. reflexivity. Qed.
+(* The group order - n*G is the point at infinity, (n-1)*G = -G, and k*P for scalars k >= n
+   against dcrd's reduced scalars - is checked through the extracted runner by the c11-prims
+   stream (run_crypto case 11: [pt_mul k P] is computed on the UNREDUCED k, Go reduces k
+   modulo n first; the two agree only if n is the order of P).  In the VM one 256-bit scalar
+   multiplication costs about 40 s (an extended-Euclid inversion on binary integers per
+   point operation), so these vectors are not Examples here:
+     pt_mul secp_n secp_G = None          pt_mul (secp_n - 1) secp_G = pt_neg secp_G *)
+
+(* cheap checks of the same kind *)
+Example add_neg_G : pt_add secp_G (pt_neg secp_G) = None.
+Proof. vm_check. Qed.
+Example add_2G_G : pt_add (pt_mul 2 secp_G) secp_G = pt_mul 3 secp_G.
+Proof. vm_check. Qed.
